@@ -769,6 +769,257 @@ theorem getLastIndex_fromStart (t : TRing α) (hwf : t.r.WF) (hS : t.r.size.toNa
       (ofNat32_small (by omega)) (ofNat32_small (by omega)) (by omega) (by omega) hi,
     emod_prev h1 (by omega)]
 
+
+theorem last_abs {t : TRing α} {q : List α} (h : Abs t.r t.buf q) (hq : q ≠ [])
+    (hS : t.r.size.toNat < 2 ^ 31) : t.last = some (q.getLast hq) := by
+  have hlen : 0 < q.length := List.length_pos_iff.mpr hq
+  obtain ⟨hs, hn⟩ := toNat_of_toInt_nonneg (lastIndex_toInt t h.1 hS)
+  unfold last
+  simp only [hs, Bool.false_eq_true, if_false, hn]
+  rw [abs_prev h hlen, List.getLast_eq_getElem]
+  rfl
+
+/-- elements `i, i+1, …` of `get_last(off, count, true)` -/
+theorem getLastAux_fromEnd {t : TRing α} {q : List α} (h : Abs t.r t.buf q)
+    (hS : t.r.size.toNat < 2 ^ 31) (off : Nat) (cnt32 : BitVec 32) :
+    ∀ (n i : Nat), off + i + n ≤ q.length →
+      t.getLastAux (BitVec.ofNat 32 off) cnt32 true n i = some (((q.reverse.drop off).drop i).take n)
+  | 0, i, _ => by simp [getLastAux]
+  | n + 1, i, hle => by
+      have hlt := cnt_lt t.r h.1
+      have hl := h.2.2.1
+      obtain ⟨hs, hn⟩ := toNat_of_toInt_nonneg
+        (getLastIndex_fromEnd t h.1 hS off i cnt32 (by omega))
+      have ih := getLastAux_fromEnd h hS off cnt32 n (i + 1) (by omega)
+      have hidx : off + i < q.reverse.length := by simp; omega
+      simp only [getLastAux, hs, Bool.false_eq_true, if_false, hn, abs_prev h (k := off + i) (by omega), ih]
+      rw [List.drop_drop, List.drop_drop, Option.map_some]
+      congr 1
+      rw [show off + (i + 1) = (off + i) + 1 by omega]
+      rw [← List.getElem_cons_drop (h := hidx), List.take_succ_cons]
+      congr 1
+      rw [List.getElem_reverse]
+
+theorem getLast_fromEnd {t : TRing α} {q : List α} (h : Abs t.r t.buf q)
+    (hS : t.r.size.toNat < 2 ^ 31) (off count : Nat) (hle : off + count ≤ q.length) :
+    t.getLast (BitVec.ofNat 32 off) count true = some ((q.reverse.drop off).take count) := by
+  unfold getLast
+  rw [getLastAux_fromEnd h hS off _ count 0 (by omega)]
+  simp
+
+theorem getLastAux_fromStart {t : TRing α} {q : List α} (h : Abs t.r t.buf q)
+    (hS : t.r.size.toNat < 2 ^ 31) (off count : Nat) (hle : off + count ≤ q.length) :
+    ∀ (n i : Nat), i + n = count →
+      t.getLastAux (BitVec.ofNat 32 off) (BitVec.ofNat 32 count) false n i =
+        some (((q.drop (q.length - count - off)).drop i).take n)
+  | 0, i, _ => by simp [getLastAux]
+  | n + 1, i, hin => by
+      have hlt := cnt_lt t.r h.1
+      have hl := h.2.2.1
+      obtain ⟨hs, hn⟩ := toNat_of_toInt_nonneg
+        (getLastIndex_fromStart t h.1 hS off count i (by omega) (by omega))
+      have ih := getLastAux_fromStart h hS off count hle n (i + 1) (by omega)
+      have hidx : q.length - count - off + i < q.length := by omega
+      simp only [getLastAux, hs, Bool.false_eq_true, if_false, hn,
+        abs_prev h (k := count + off - 1 - i) (by omega), ih]
+      rw [List.drop_drop, List.drop_drop, Option.map_some]
+      congr 1
+      rw [show q.length - count - off + (i + 1) = (q.length - count - off + i) + 1 by omega]
+      rw [← List.getElem_cons_drop (h := hidx), List.take_succ_cons]
+      congr 2
+      omega
+
+theorem getLast_fromStart {t : TRing α} {q : List α} (h : Abs t.r t.buf q)
+    (hS : t.r.size.toNat < 2 ^ 31) (off count : Nat) (hle : off + count ≤ q.length) :
+    t.getLast (BitVec.ofNat 32 off) count false =
+      some ((q.drop (q.length - count - off)).take count) := by
+  unfold getLast
+  rw [getLastAux_fromStart h hS off count hle count 0 (by omega)]
+  simp
+
+theorem tail_abs {t : TRing α} {x : α} {q : List α} (h : Abs t.r t.buf (x :: q)) :
+    t.tail = some x := (abs_moveTailOne h).1
+
+theorem push_abs {t : TRing α} {q : List α} (x : α) (h : Abs t.r t.buf q)
+    (hroom : q.length < t.r.size.toNat - 1) :
+    ∃ t', t.push x = some t' ∧ t'.r.size = t.r.size ∧ Abs t'.r t'.buf (q ++ [x]) := by
+  have hlen : t.r.head.toNat < t.buf.length := by
+    obtain ⟨⟨h1, h2⟩, hb, -, -⟩ := h; omega
+  exact ⟨⟨ringMoveHeadOne t.r, t.buf.set t.r.head.toNat x⟩, by simp [push, poke, hlen], by simp,
+    abs_moveHeadOne (abs_set_head x h) hroom (List.getElem?_set_self hlen)⟩
+
+theorem pop_abs {t : TRing α} {x : α} {q : List α} (h : Abs t.r t.buf (x :: q)) :
+    ∃ t', t.pop = some t' ∧ t'.r.size = t.r.size ∧ Abs t'.r t'.buf q := by
+  have hlen : t.r.tail.toNat < t.buf.length := by
+    obtain ⟨⟨h1, h2⟩, hb, -, -⟩ := h; omega
+  exact ⟨⟨ringMoveTailOne t.r, t.buf⟩, by simp [pop, hlen], by simp, (abs_moveTailOne h).2⟩
+
+/-- constructor: ring size = buffer size = `bufsize + 1`, empty -/
+theorem mk'_abs (dflt : α) (n : Nat) (hn : n + 1 < 2 ^ 32) :
+    (mk' dflt n).r.size.toNat = n + 1 ∧ (mk' dflt n).buf.length = n + 1 ∧
+    Abs (mk' dflt n).r (mk' dflt n).buf [] := by
+  have e : (BitVec.ofNat 32 (n + 1)).toNat = n + 1 := by simp only [BitVec.toNat_ofNat]; omega
+  refine ⟨by simp [mk', ringInit, e], by simp [mk'], ?_⟩
+  exact abs_init _ _ (by omega) (by simp [e, mk'])
+
+theorem resize_abs (dflt : α) (t : TRing α) (n : Nat) (hn : n + 1 < 2 ^ 32) :
+    (resize dflt t n).r.size.toNat = n + 1 ∧ (resize dflt t n).buf.length = n + 1 ∧
+    Abs (resize dflt t n).r (resize dflt t n).buf [] := mk'_abs dflt n hn
+
+theorem reset_abs (t : TRing α) (h0 : 0 < t.buf.length) (hn : t.buf.length < 2 ^ 32) :
+    t.reset.r.size.toNat = t.buf.length ∧ Abs t.reset.r t.reset.buf [] := by
+  have e : (BitVec.ofNat 32 t.buf.length).toNat = t.buf.length := by
+    simp only [BitVec.toNat_ofNat]; omega
+  refine ⟨by simp [reset, ringInit, e], ?_⟩
+  exact abs_init _ _ (by omega) (by simp [e, reset])
+
+/-- `distance(a, b)` = number of steps from slot `b` forward to slot `a` -/
+theorem distance_toNat (t : TRing α) (a b : BitVec 32) (hS : t.r.size.toNat ≤ 2 ^ 31)
+    (ha : a.toNat < t.r.size.toNat) (hb : b.toNat < t.r.size.toNat) :
+    (t.distance a b).toNat = (a.toNat + t.r.size.toNat - b.toNat) % t.r.size.toNat := by
+  unfold distance
+  rw [BitVec.toNat_umod]
+  congr 1
+  bv_omega
+
+theorem setLastIndex_head (t : TRing α) (idx : BitVec 32) (h : idx.toNat < t.r.size.toNat) :
+    (t.setLastIndex idx).r.head.toNat = nextIdx t.r.size.toNat idx.toNat ∧
+    (t.setLastIndex idx).r.tail = t.r.tail ∧ (t.setLastIndex idx).r.size = t.r.size := by
+  refine ⟨?_, rfl, rfl⟩
+  exact moveHeadOne_head { t.r with head := idx } h
+
 end TRing
+
+
+/-! ### the index invariant is preserved by EVERY operation (no contract needed) -/
+
+theorem wf_moveHeadOne {r : RingHead} (h : r.WF) : (ringMoveHeadOne r).WF :=
+  ⟨by rw [moveHeadOne_head r h.1]; exact nextIdx_lt h.1, h.2⟩
+
+theorem wf_moveTailOne {r : RingHead} (h : r.WF) : (ringMoveTailOne r).WF :=
+  ⟨h.1, by rw [moveTailOne_tail r h.2]; exact nextIdx_lt h.2⟩
+
+theorem wf_moveHead {r : RingHead} (h : r.WF) (b : U32) : (ringMoveHead r b).WF :=
+  ⟨by rw [moveHead_head r (by have := h.1; omega)]; exact Nat.mod_lt _ (by have := h.1; omega), h.2⟩
+
+theorem wf_moveTail {r : RingHead} (h : r.WF) (b : U32) : (ringMoveTail r b).WF :=
+  ⟨h.1, by rw [moveTail_tail r (by have := h.1; omega)]; exact Nat.mod_lt _ (by have := h.1; omega)⟩
+
+theorem wf_clean {r : RingHead} (h : r.WF) : (ringClean r).WF := by
+  obtain ⟨h1, h2⟩ := h
+  constructor <;> simp [ringClean] <;> omega
+
+/-- what every operation guarantees about the state it leaves -/
+def Keeps (r : RingHead) (buf : List α) (r' : RingHead) (buf' : List α) : Prop :=
+  r'.WF ∧ r'.size = r.size ∧ buf'.length = buf.length
+
+section
+variable {α : Type}
+
+theorem Keeps.refl {r : RingHead} {buf : List α} (h : r.WF) : Keeps r buf r buf := ⟨h, rfl, rfl⟩
+
+theorem Keeps.trans {r r' r'' : RingHead} {b b' b'' : List α} (h1 : Keeps r b r' b')
+    (h2 : Keeps r' b' r'' b'') : Keeps r b r'' b'' :=
+  ⟨h2.1, h2.2.1.trans h1.2.1, h2.2.2.trans h1.2.2⟩
+
+theorem putc_keeps {r : RingHead} {buf : List α} (c : α) (h : r.WF) (hb : r.size.toNat ≤ buf.length) :
+    ∃ r' buf' rc, ringPutc r buf c = some (r', buf', rc) ∧ Keeps r buf r' buf' := by
+  unfold ringPutc
+  cases ringFull r
+  · have hlen : r.head.toNat < buf.length := by have := h.1; omega
+    exact ⟨ringMoveHeadOne r, buf.set r.head.toNat c, 1, by simp [poke, hlen],
+      wf_moveHeadOne h, rfl, by simp⟩
+  · exact ⟨r, buf, 0, by simp, Keeps.refl h⟩
+
+theorem writeAux_keeps : ∀ (d : List α) {r : RingHead} {buf : List α} (ret : Nat), r.WF →
+    r.size.toNat ≤ buf.length →
+    ∃ r' buf' n, ringWriteAux d r buf ret = some (r', buf', n) ∧ Keeps r buf r' buf'
+  | [], r, buf, ret, h, _ => ⟨r, buf, ret, rfl, Keeps.refl h⟩
+  | c :: rest, r, buf, ret, h, hb => by
+      obtain ⟨r1, b1, rc, e, k⟩ := putc_keeps c h hb
+      by_cases hrc : rc = 0
+      · exact ⟨r1, b1, ret, by simp [ringWriteAux, e, hrc], k⟩
+      · obtain ⟨r2, b2, n, e2, k2⟩ := writeAux_keeps rest (ret + 1) k.1
+          (by rw [k.2.1, k.2.2]; exact hb)
+        exact ⟨r2, b2, n, by simp [ringWriteAux, e, hrc, e2], k.trans k2⟩
+
+theorem directFill_keeps : ∀ (d : List α) (buf : List α) (S p : Nat), 0 < S → S ≤ buf.length →
+    ∃ buf', directFill buf S p d = some buf' ∧ buf'.length = buf.length
+  | [], buf, _, _, _, _ => ⟨buf, rfl, rfl⟩
+  | c :: rest, buf, S, p, hS, hb => by
+      have hp : p % S < buf.length := Nat.lt_of_lt_of_le (Nat.mod_lt _ hS) hb
+      obtain ⟨b', e, hl⟩ := directFill_keeps rest (buf.set (p % S) c) S (p + 1) hS (by simpa using hb)
+      exact ⟨b', by simp [directFill, poke, hp, e], by simpa using hl⟩
+
+theorem directPeek_total : ∀ (n : Nat) (buf : List α) (S p : Nat), 0 < S → S ≤ buf.length →
+    ∃ l, directPeek buf S p n = some l
+  | 0, _, _, _, _, _ => ⟨[], rfl⟩
+  | n + 1, buf, S, p, hS, hb => by
+      have hp : p % S < buf.length := Nat.lt_of_lt_of_le (Nat.mod_lt _ hS) hb
+      obtain ⟨l, e⟩ := directPeek_total n buf S (p + 1) hS hb
+      exact ⟨buf[p % S] :: l, by simp [directPeek, hp, e]⟩
+
+end
+
+theorem getc_keeps {r : RingHead} {buf : List Byte} (h : r.WF) (hb : r.size.toNat ≤ buf.length) :
+    ∃ r' v, ringGetc r buf = some (r', v) ∧ Keeps r buf r' buf ∧ -1 ≤ v ∧ v ≤ 255 := by
+  unfold ringGetc ringGetcWith
+  cases ringEmpty r
+  · have hlen : r.tail.toNat < buf.length := by have := h.2; omega
+    refine ⟨ringMoveTailOne r, (buf[r.tail.toNat].toNat : Int), by simp [hlen],
+      ⟨wf_moveTailOne h, rfl, rfl⟩, by omega, by omega⟩
+  · exact ⟨r, -1, by simp, Keeps.refl h, by omega, by omega⟩
+
+theorem readWith_keeps : ∀ (n : Nat) {r : RingHead} {buf : List Byte} (acc : List Byte), r.WF →
+    r.size.toNat ≤ buf.length →
+    ∃ r' out, ringReadWith ringGetc buf n r acc = some (r', out) ∧ Keeps r buf r' buf
+  | 0, r, buf, acc, h, _ => ⟨r, acc, rfl, Keeps.refl h⟩
+  | n + 1, r, buf, acc, h, hb => by
+      obtain ⟨r1, v, e, k, -, -⟩ := getc_keeps h hb
+      by_cases hv : v = -1
+      · exact ⟨r1, acc, by simp [ringReadWith, e, hv], k⟩
+      · obtain ⟨r2, out, e2, k2⟩ := readWith_keeps n (acc ++ [BitVec.ofInt 8 v]) k.1
+          (by rw [k.2.1]; exact hb)
+        exact ⟨r2, out, by simp [ringReadWith, e, hv, e2], k.trans k2⟩
+
+/-- EVERY operation, with ANY argument, from ANY state that satisfies the index
+invariant: no access outside the buffer, and the invariant holds afterwards. -/
+theorem step_keeps {r : RingHead} {buf : List Byte} (h : r.WF) (hb : r.size.toNat ≤ buf.length)
+    (op : Op) : ∃ r' buf' o, stepRing r buf op = some (r', buf', o) ∧ Keeps r buf r' buf' := by
+  have hpos : 0 < r.size.toNat := by have := h.1; omega
+  cases op with
+  | putc c =>
+    obtain ⟨r', b', rc, e, k⟩ := putc_keeps c h hb
+    exact ⟨r', b', .int rc, by simp [stepRing, e], k⟩
+  | getc =>
+    obtain ⟨r', v, e, k, -, -⟩ := getc_keeps h hb
+    exact ⟨r', buf, .int v, by simp [stepRing, e], k⟩
+  | write d =>
+    obtain ⟨r', b', n, e, k⟩ := writeAux_keeps d 0 h hb
+    exact ⟨r', b', .count n, by simp [stepRing, ringWrite, e], k⟩
+  | read n =>
+    obtain ⟨r', out, e, k⟩ := readWith_keeps n [] h hb
+    exact ⟨r', buf, .bytes out, by simp [stepRing, ringRead, e], k⟩
+  | produce d =>
+    obtain ⟨b', e, hl⟩ := directFill_keeps d buf r.size.toNat r.head.toNat hpos hb
+    exact ⟨ringMoveHead r (BitVec.ofNat 32 d.length), b', .unit, by simp [stepRing, e],
+      wf_moveHead h _, rfl, hl⟩
+  | produce1 c =>
+    have hlen : r.head.toNat < buf.length := by have := h.1; omega
+    exact ⟨ringMoveHeadOne r, buf.set r.head.toNat c, .unit, by simp [stepRing, poke, hlen],
+      wf_moveHeadOne h, rfl, by simp⟩
+  | consume n =>
+    obtain ⟨l, e⟩ := directPeek_total n buf r.size.toNat r.tail.toNat hpos hb
+    exact ⟨ringMoveTail r (BitVec.ofNat 32 n), buf, .bytes l, by simp [stepRing, e],
+      wf_moveTail h _, rfl, rfl⟩
+  | consume1 =>
+    have hlen : r.tail.toNat < buf.length := by have := h.2; omega
+    exact ⟨ringMoveTailOne r, buf, .bytes [buf[r.tail.toNat]], by simp [stepRing, hlen],
+      wf_moveTailOne h, rfl, rfl⟩
+  | moveHead n => exact ⟨_, buf, .unit, rfl, wf_moveHead h n, rfl, rfl⟩
+  | moveHeadOne => exact ⟨_, buf, .unit, rfl, wf_moveHeadOne h, rfl, rfl⟩
+  | moveTail n => exact ⟨_, buf, .unit, rfl, wf_moveTail h n, rfl, rfl⟩
+  | moveTailOne => exact ⟨_, buf, .unit, rfl, wf_moveTailOne h, rfl, rfl⟩
+  | clean => exact ⟨_, buf, .unit, rfl, wf_clean h, rfl, rfl⟩
 
 end Igris.C03
